@@ -55,6 +55,9 @@ func (o Op) String() string {
 	if o.D > 1 {
 		b.WriteString(fmt.Sprintf("/d%d", o.D))
 	}
+	if o.D < 0 {
+		b.WriteString("/min")
+	}
 	return b.String()
 }
 
@@ -194,6 +197,9 @@ func Run(o Op) (digest string) {
 	d := o.D
 	if d == 0 {
 		d = 1
+	}
+	if d < 0 {
+		d = 0 // minimal digest: the object's String() only, no further library calls
 	}
 	return Digest(Construct(o), d)
 }
